@@ -6,7 +6,7 @@ props = [json.loads(l) for l in open(os.path.join(ROOT, "properties.jsonl"))]
 
 CLAIMS = {
  "C01": dict(
-  text="Held on the executions observed: round trips in both orders for every catalogued invertible operator, parameter aspect and ellipsoid class, stand-alone, with inv, through macros and in pipelines; tolerances from the property text. Sampling, not exhaustive.",
+  text="Held on the executions observed: round trips in both orders for every catalogued invertible operator, parameter aspect and ellipsoid class, stand-alone, with inv, through macros and in pipelines; whole datum-shift-plus-projection pipelines; gridshift (1 and 2 bands) and deformation on harness-built grids inside their coverage; tolerances from the property text. Sampling, not exhaustive.",
   note="Trusts the harness reference formulas for ground distance (M, N radii) and the catalogue's transcription of each operator's documented domain.",
   technique="runtime monitoring: inverse-pair residual monitor over generated parameterisations and inputs",
   ref="DESIGN.md §2 C01"),
@@ -67,7 +67,7 @@ CLAIMS = {
   technique="runtime monitoring: two-route agreement monitor",
   ref="DESIGN.md §2 C14"),
  "C08": dict(
-  text="Held on the executions observed: on harness-built Gravsoft grids (1-3 bands, angular and projected, 2-40 rows/columns, asymmetric node values) Grid::at reproduces nodes, stays within the four corners inside a cell, agrees with the harness bilinear model (4 ulp of f32), is continuous across cell borders, continues linearly within the half-cell margin and returns None beyond it; grids_at picks the first containing grid, then the first within the margin, and the null grid last; harness-encoded NTv2 trees (1-5 sub grids, grand children, either byte order, arbitrary file order) resolve to the deepest sub grid; gridshift adds 2-band shifts and subtracts 1-band geoid heights forward (inverse the opposite), @optional and @null behave as documented, deformation integrates the ENU velocity rotated into XYZ over dt, and deflection is the finite difference of the geoid.",
+  text="Held on the executions observed: on harness-built Gravsoft grids (1-3 bands, angular and projected, 2-40 rows/columns, asymmetric node values) Grid::at reproduces nodes, stays within the four corners inside a cell, agrees with the harness bilinear model (4 ulp of f32), is continuous across cell borders, continues linearly within the half-cell margin and returns None beyond it; grids_at picks the first containing grid, then the first within the margin, and the null grid last, also through the gridshift and deformation operators over lists of two or three overlapping grids with @optional, missing and @null entries; harness-encoded NTv2 trees (1-5 sub grids, grand children, either byte order, arbitrary file order) resolve to the deepest sub grid; gridshift adds 2-band shifts and subtracts 1-band geoid heights forward (inverse the opposite), @optional and @null behave as documented, deformation integrates the ENU velocity rotated into XYZ over dt, and deflection is the finite difference of the geoid.",
   note="One open known finding: deformation in t_epoch mode applies the opposite sign of the documented equation (see known_findings.json). The harness encoders and the bilinear model are written from the format documentation, not from the decoders.",
   technique="runtime monitoring: executable reference model (bilinear interpolation, grid selection) over harness-generated grids, queries and operators",
   ref="DESIGN.md §2 C08"),
@@ -78,7 +78,7 @@ CLAIMS = {
   ref="DESIGN.md §1.4, §2 C09"),
  "C15": dict(
   text="Held on the executions observed: harness-encoded Gravsoft grids (any comment/whitespace/line layout, 1-3 bands, angular or projected) and NTv2 files (both byte orders, 1-6 sub grids in any order) decode to the geometry and node values written, after the documented conventions, the two byte orders decode identically, and the shipped .gsb files equal a plain reading of their .gsa twins; a damage campaign (every 7th truncation length and every 5th header byte x 8 bits of every shipped file below 64 KiB in the quick tier, all of them in the thorough tier; random truncations, overwrites, splices, bit flips, structural damage of sub grid names/parents/counts/increments, degenerate Gravsoft headers, wrong decoder) followed by 96 queries per accepted file never panics, aborts, hangs or allocates more than 64 x input + 16 MiB, in debug-semantics and release-semantics builds.",
-  note="Allocation is observed with a counting global allocator in the harness; out-of-bounds reads would surface as panics (safe Rust). A Miri slice is described in DESIGN.md as secondary evidence only.",
+  note="Allocation is observed with a counting global allocator in the harness; out-of-bounds reads would surface as panics (safe Rust). Structural damage includes sub grids named NONE, cyclic and unknown parents, duplicate names.",
   technique="runtime monitoring: encode-decode-query round trip against a reference model, plus crash/hang/allocation monitor over a fault-injection campaign on file contents",
   category="fault_enumeration",
   ref="DESIGN.md §2 C15"),
@@ -94,8 +94,8 @@ CLAIMS = {
   ref="DESIGN.md §2 C17"),
  "C18": dict(
   text="Held on the executions observed: over generated histories (10-60 steps on 1-3 Minimal/Plain contexts) of register_op, register_resource, op, apply, steps, params, Plain::clear_grids and new contexts, every instantiation resolves as the registry model says (pipeline, user operator for colon-less names, macro for names with a colon incl. file based ones, built-in; unknown names are errors), handles are pairwise distinct, foreign and fresh handles are refused, and after every history step every live handle still has the behaviour (both directions), step list and parameters it had at instantiation; Plain reads stand-alone resource files and registers (several fenced items, similar names, item at end of file without terminator, LF/CRLF/CR) to exactly the expected text, run-time registrations first; in threaded runs (6 threads, shared &Plain for apply, private contexts instantiating grid operators, clear_grids, injected yields/sleeps between calls) every logged result equals the sequential fingerprint.",
-  note="Schedules are sampled, not enumerated: the evidence reports the number of distinct interleavings of API calls seen (hash of the merged call order). The Miri many-seeds slice described in DESIGN.md is secondary and not part of the registered commands.",
-  technique="runtime monitoring: history checked against an executable registry model after every step; offline checker over per-thread event logs of a stress workload",
+  note="Schedules are sampled, not enumerated: the evidence reports the number of distinct interleavings of API calls seen (hash of the merged call order). The thorough command also runs a reduced threaded workload (3 threads x 4 API calls) under Miri with 32 scheduler seeds (data races, deadlocks, undefined behaviour, same result oracle); it is secondary evidence: when Miri cannot run the evidence says so and the verdict rests on the native runs.",
+  technique="runtime monitoring: history checked against an executable registry model after every step; offline checker over per-thread event logs of a stress workload; Miri (many scheduler seeds) on a reduced slice in the thorough tier",
   ref="DESIGN.md §2 C18"),
  "C19": dict(
   text="Held on the executions observed: write/read round trips, bulk accessors, set_xy/xyz/xyzt, stomp for 15 container kinds plus a user container on the trait defaults (missing dimensions read 0 / NaN or the adapter's fixed values, Coor32 through f32); nth/set_nth out of range give NaN without crashing; typed, angular and bulk accessors, update, fill, new, scale, dot, hypot2/3 and + - * / agree with element-wise definitions on hostile values; ISO-6709 DDDMM.mmm / DDDMMSS.sss encodings, dms_to_dd, dm_to_dd, parse_sexagesimal, normalisation and the dm/dms operators agree with the formulas, on a lattice of [-720, 720] degrees (0.05 deg quick, 1 arc-second thorough) and at random with carries, |angle| < 1 degree and zero-degree components.",
@@ -103,8 +103,8 @@ CLAIMS = {
   technique="runtime monitoring: independent reference definitions as oracle over generated values and a dense lattice",
   ref="DESIGN.md §2 C19"),
  "C20": dict(
-  text="Held on the executions observed: kp, built from the working tree and run as a subprocess, prints exactly one line per coordinate line, in order, with the requested number of decimals, each value within half a unit of the last place of the library's result for that line (computed in-process by the same build), cut or extended to -D columns; blank lines, comment lines and trailing comments are skipped, sexagesimal input is read, missing height/time default to 0/NaN or --height/--time, --inv and --roundtrip print the inverse and the forward-inverse residuals; stdin, one file and the same lines spread over two files give byte-identical output, also across the 25000-tuple batch boundary (24999/25000/25001 lines quick, up to 60001 thorough); empty input ends with status 0 and no output, lines with more than four columns are still one line, invalid operations and unreadable files end with a message and a non-zero status that is not a panic status.",
-  note="The default decimals/dimension heuristics are documented as guesses from the data seen so far and are not asserted (all runs give -d and -D). A kp process is called non-terminating only after 60 CPU-seconds.",
+  text="Held on the executions observed: kp, built from the working tree and run as a subprocess, prints exactly one line per coordinate line, in order, with the requested number of decimals, each value within half a unit of the last place of the library's result for that line (computed in-process by the same build), cut or extended to -D columns; blank lines, comment lines and trailing comments are skipped, sexagesimal input is read, missing height/time default to 0/NaN or --height/--time, --inv and --roundtrip (alone and together) print the inverse and the round trip residuals; without -D the widest coordinate line decides the dimension; stdin, one file and the same lines spread over two files give byte-identical output, also across the 25000-tuple batch boundary (24999/25000/25001 lines quick, up to 60001 thorough); empty input ends with status 0 and no output, lines with more than four columns are still one line, invalid operations and unreadable files (missing, a directory, bytes that are not UTF-8) end with a message and a non-zero status that is not a panic status; all lines of one run are printed in one format whichever internal batch they fall into.",
+  note="One open known finding: without -D the estimated dimension can differ between the batches of one run (known_findings.json). The value of the default number of decimals is a documented guess and is not asserted, only that it is the same for all lines of a run. A kp process is called non-terminating only after 60 CPU-seconds.",
   technique="runtime monitoring: process-boundary differential against in-process library results, plus exit-status monitor",
   ref="DESIGN.md §2 C20"),
 }
